@@ -209,6 +209,49 @@ def combo_cases(rng):
     return [Case(base, rules, items + ['"b"', "2"], sem, "enum")]
 
 
+def datetime_ok(s):
+    """RFC 3339 section 5.6, written from the grammar: date-time = full-date "T" full-time (T and Z in either case); full-date is a day of the calendar; hour 00-23, minute 00-59,
+    second 00-60; time-secfrac = "." 1*DIGIT; time-offset = "Z" / ("+"/"-") hour ":" minute; a second of 60 is the last second of a day of UTC"""
+    import re
+    m = re.fullmatch(r"(\d{4}-\d{2}-\d{2})[Tt](\d{2}):(\d{2}):(\d{2})(\.\d+)?([Zz]|[+-]\d{2}:\d{2})", s, re.ASCII)
+    if not m or not date_ok(m.group(1)):
+        return False
+    hh, mi, ss = int(m.group(2)), int(m.group(3)), int(m.group(4))
+    if hh > 23 or mi > 59 or ss > 60:
+        return False
+    z = m.group(6)
+    off = 0
+    if z not in ("Z", "z"):
+        oh, om = int(z[1:3]), int(z[4:6])
+        if oh > 23 or om > 59:
+            return False
+        off = (oh * 60 + om) * (-1 if z[0] == "-" else 1)
+    return ss != 60 or (hh * 60 + mi - off) % 1440 == 1439
+
+
+def rand_datetime(rng):
+    """a date-time, mostly valid, then mutated in one place with probability 1/2"""
+    y, mo, d = rng.choice([1999, 2000, 2016, 2020, 2021, 2100, 9999, 1]), rng.randint(1, 12), rng.randint(1, 31)
+    hh, mi, ss = rng.choice([0, 7, 15, 23, 24]), rng.choice([0, 29, 30, 59, 60]), rng.choice([0, 30, 59, 60, 60, 61])
+    frac = rng.choice(["", "", ".5", ".123456789", ".", ",5"])
+    z = rng.choice(["Z", "z", "+00:00", "-00:00", "+23:59", "-23:59", "+24:00", "+09:00", "-08:00", "+00:30", "-05:30", "+0100", "", "+01:60"])
+    if ss == 60 and rng.random() < 0.6:        # steer towards the leap second rule: pick the time that makes it the last second of a UTC day for this zone
+        off = 0
+        import re
+        m = re.fullmatch(r"([+-])(\d\d):(\d\d)", z)
+        if m:
+            off = (int(m.group(2)) * 60 + int(m.group(3))) * (-1 if m.group(1) == "-" else 1)
+        t = (1439 + off) % 1440
+        hh, mi = t // 60, t % 60
+        if rng.random() < 0.3:
+            mi = (mi + 1) % 60
+    s = "%04d-%02d-%02d%s%02d:%02d:%02d%s%s" % (y, mo, d, rng.choice(["T", "T", "t", " "]), hh, mi, ss, frac, z)
+    if rng.random() < 0.3:
+        i = rng.randrange(len(s))
+        s = s[:i] + rng.choice(["", "x", "0", ":", "-", " "]) + s[i + rng.choice([0, 1]):]
+    return s
+
+
 def format_cases(rng):
     out = []
     years = ["0000", "0001", "1899", "1900", "2000", "2023", "2024", "2100", "9999"]
@@ -227,7 +270,9 @@ def format_cases(rng):
     dt_bad = ["2021-02-29T00:00:00Z", "2020-01-01 00:00:00", "2020-01-01", "", "2020-01-01T00:00:00,5Z", "2020-01-01T00:00:00.5+24:00", "2020-01-01T00:00:00+23:60", "2020-01-01T1:00:00Z",
               "2020-01-01T24:00:00Z", "2020-01-01T00:60:00Z", "2020-01-01T00:00:61Z", "2020-01-01T00:00:00", "2020-01-01T00:00:00.Z", "2020-13-01T00:00:00Z", "2020-01-01T00:00:00+0100",
               "2020-01-01T00:00:00Zx", " 2020-01-01T00:00:00Z", "20200101T000000Z"]
-    out.append(Case('"2020-01-01T00:00:00Z"', ['type: "datetime"'], ['"%s"' % x for x in dt_ok + dt_bad], lambda tok, dt_ok=dt_ok: decoded(tok) in dt_ok, "datetime"))
+    assert all(datetime_ok(x) for x in dt_ok) and not any(datetime_ok(x) for x in dt_bad)
+    dtp = dt_ok + dt_bad + [rand_datetime(rng) for _ in range(30)]
+    out.append(Case('"2020-01-01T00:00:00Z"', ['type: "datetime"'], ['"%s"' % x for x in dtp], lambda tok: datetime_ok(decoded(tok)), "datetime"))
     return [rng.choice(out), out[0] if rng.random() < 0.3 else rng.choice(out)]
 
 
@@ -244,7 +289,7 @@ def run(ctx):
                          "type-sensitive enum membership, const = example, formats); nullable:true admits null whatever the other rules; rules with value false are inert; date/uuid also "
                          "against the extracted Coq models; non-trivial = probe within one ulp/one byte of a bound")
     ctx.assumptions += ["string length is counted in bytes of the decoded UTF-8 text (the statement says 'decoded string length'; the library and this oracle agree on bytes)",
-                        "regex/email/uri/datetime are delegated to Go's regexp / net/mail / net/url / time: only clearly valid and clearly invalid probes are used for them"]
+                        "regex/email/uri are delegated to Go's regexp / net/mail / net/url: only clearly valid and clearly invalid probes are used for them; datetime is the library's own RFC 3339 parser (fix 3e85282): judged by an oracle written from the grammar and by the extracted Coq model"]
     ctx.classifiers["zero_int_then_exp_document"] = lambda case: isinstance(case, dict) and bool(N10.ZERO_INT_EXP.match(case.get("document", "")))
     cases = []
     n = 600 if quick else 6000
@@ -315,17 +360,17 @@ def run(ctx):
             ctx.nontrivial.add(schema + "|" + p)
             if ok != want and len(ctx.violations) < 60:
                 ctx.report("%s: Validate(%s) against %r says %s, the rules say %s" % (c.label, p, schema, got, "accept" if want else "reject"), "c02:" + schema + "|" + p, info, case=info)
-            if c.label in ("date", "uuid") and dk == "string":
-                fmt_lines.append(("d " if c.label == "date" else "u ") + (decoded(p).encode("utf-8").hex() or "-"))
+            if c.label in ("date", "uuid", "datetime") and dk == "string":
+                fmt_lines.append({"date": "d ", "uuid": "u ", "datetime": "t "}[c.label] + (decoded(p).encode("utf-8").hex() or "-"))
     # Coq models of date / uuid against the python oracle (and thereby against the library above)
     if st["model"] and fmt_lines:
         fmt_lines = list(dict.fromkeys(fmt_lines))
         mo = vc.model("formats_model", fmt_lines)
         for l, m in zip(fmt_lines, mo):
             s = bytes.fromhex(l[2:]).decode("utf-8") if l[2:] != "-" else ""
-            want = date_ok(s) if l[0] == "d" else uuid_ok(s)
+            want = date_ok(s) if l[0] == "d" else (uuid_ok(s) if l[0] == "u" else datetime_ok(s))
             if (m == "T") != want:
-                ctx.report("Coq %s model on %r says %s, oracle says %s" % ("date" if l[0] == "d" else "uuid", s, m, want), "c02fmt:" + l, {"line": l, "model": m}, no_input=True)
+                ctx.report("Coq %s model on %r says %s, oracle says %s" % ({"d": "date", "u": "uuid", "t": "datetime"}[l[0]], s, m, want), "c02fmt:" + l, {"line": l, "model": m}, no_input=True)
     UQ.check_unquote(ctx, st, quick, "c02")
     ctx.extra["schemas"] = len(lines)
     ctx.extra["by_rule"] = {k: sum(1 for c, _, _, _ in meta if c.label == k) for k in sorted(set(c.label for c, _, _, _ in meta))}
